@@ -33,3 +33,5 @@ package chars
 //@   ensures len(data) > 0 && chars.RuneLen(data[index]) == 0 ==> index == 0 && !isCompleteRune && (forall j int :: 0 <= j && j < len(data) ==> chars.RuneLen(data[j]) == 0)
 //@   loop 0 invariant 0 - 1 <= index && index < len(data) && dataLength == len(data) && (forall j int :: index < j && j < len(data) ==> chars.RuneLen(data[j]) == 0)
 //@   loop 0 decreases index + 1
+
+//@ const_global HexChars
